@@ -46,24 +46,62 @@ def skeleton(n, m, kind, rnd):
     if kind == 'dup':
         base = [[rnd.random() < 0.5 for j in range(m)] for _ in range(3)]
         return [list(base[i % 3]) for i in range(n)]
+    if kind == 'contranominal':
+        return [[i != j for j in range(m)] for i in range(n)]
+    if kind == 'dupboth':        # duplicate rows AND duplicate columns
+        r, c = (n + 1) // 2, (m + 1) // 2
+        base = [[rnd.random() < 0.5 for j in range(c)] for i in range(r)]
+        return [[base[i // 2][j // 2] for j in range(m)] for i in range(n)]
+    if kind == 'fullempty':      # a full row together with an empty column (and a full column, an empty row)
+        t = [[rnd.random() < 0.5 for j in range(m)] for i in range(n)]
+        for j in range(m):
+            t[0][j] = True
+            t[n - 1][j] = False
+        for i in range(n):
+            t[i][m - 1] = False
+            t[i][0] = i != n - 1
+        t[0][m - 1] = False
+        return t
+    if kind == 'straddle':       # small extents of equal size, some reaching across the byte / word boundary
+        cols = []
+        for j in range(m):
+            if j % 2 == 0:
+                cols.append({j, n - 1 - j // 2})
+            else:
+                cols.append({j, j + 1})
+        return [[i in cols[j] for j in range(m)] for i in range(n)]
+    if kind == 'nested':         # nested extents of sizes 1, 2, 4, ...
+        return [[i < min(n, 2 ** j) for j in range(m)] for i in range(n)]
     return [[rnd.random() < 0.6 for j in range(m)] for i in range(n)]
 
 
-def skeleton_units(tier, seed, extra=None):
+def skeleton_kernel_units(tier, seed):
+    sk = skeleton_units(tier, seed)
+    return gen.kernel_units({(u['args']['n'], u['args']['m']) for u in sk if max(u['args']['n'], u['args']['m']) <= 12})
+
+
+def skeleton_units(tier, seed, extra=None, wide=True):
     """concrete structured tables wider than a machine word (or with more than 8 rows), k cells symbolic"""
     if tier == 'quick':
-        specs = [(9, 3, 'interval', 4), (12, 2, 'nominal', 3), (66, 2, 'chain', 3), (2, 66, 'nominal', 3)]
+        specs = [(9, 3, 'interval', 4), (12, 2, 'nominal', 3), (66, 2, 'chain', 3), (2, 66, 'nominal', 3),
+                 (5, 5, 'contranominal', 4), (6, 5, 'dupboth', 4), (7, 4, 'chain', 4), (6, 6, 'fullempty', 4),
+                 (5, 6, 'random', 4), (8, 4, 'nested', 3), (10, 5, 'straddle', 3)]
     else:
-        specs = [(9, 3, 'interval', 6), (12, 2, 'nominal', 6), (10, 4, 'random', 6), (17, 3, 'dup', 5),
+        specs = [(5, 5, 'contranominal', 7), (6, 5, 'dupboth', 6), (7, 4, 'chain', 6), (6, 6, 'fullempty', 6),
+                 (5, 6, 'random', 7), (8, 4, 'nested', 6), (6, 6, 'random', 6), (7, 5, 'dupboth', 6), (8, 5, 'random', 5),
+                 (9, 3, 'interval', 6), (12, 2, 'nominal', 6), (10, 4, 'random', 6), (17, 3, 'dup', 5), (10, 5, 'straddle', 6),
+                 (18, 4, 'straddle', 5), (66, 4, 'straddle', 4), (4, 66, 'random', 4),
                  (66, 2, 'chain', 6), (66, 2, 'nominal', 6), (2, 66, 'nominal', 6), (2, 66, 'chain', 6),
                  (70, 3, 'interval', 6), (3, 70, 'random', 5), (130, 2, 'dup', 5), (2, 130, 'interval', 5)]
     us = []
     for n, m, kind, k in specs:
+        if not wide and max(n, m) > 16:
+            continue
         rnd = random.Random(seed * 7919 + n * 131 + m)
         base = skeleton(n, m, kind, rnd)
         # symbolic cells around the machine-word boundary and at the ends
-        rows = sorted({0, n - 1, min(n - 1, 63), min(n - 1, 64), n // 2} if n > m else set(range(n)))
-        cols = sorted({0, m - 1, min(m - 1, 63), min(m - 1, 64), m // 2} if m > n else set(range(m)))
+        rows = sorted({0, n - 1, min(n - 1, 63), min(n - 1, 64), n // 2} if n > 2 * m and n > 8 else set(range(n)))
+        cols = sorted({0, m - 1, min(m - 1, 63), min(m - 1, 64), m // 2} if m > 2 * n and m > 8 else set(range(m)))
         cand = [(i, j) for i in rows for j in cols]
         pos = rnd.sample(cand, min(k, len(cand)))
         fixed = [[None if (i, j) in pos else bool(base[i][j]) for j in range(m)] for i in range(n)]
@@ -95,10 +133,11 @@ def inductive_unit_for(pid):
     return unit_inductive
 
 
-def lattice_level_units(tier, seed, tables=None, extra=None, split_from=8):
+def lattice_level_units(tier, seed, tables=None, extra=None, split_from=8, wide=True):
     """kernel == contract for every small shape used, inductive kernel step for the wide widths, per-table units for
     all small tables and for the wide skeletons"""
     t = tables or (QUICK_TABLES if tier == 'quick' else THOROUGH_TABLES)
-    us = gen.kernel_units(t) + inductive_units(tier) + table_units(t, split_from=split_from, extra=extra) \
-        + skeleton_units(tier, seed, extra=extra)
+    sk = skeleton_units(tier, seed, extra=extra, wide=wide)
+    small = {(u['args']['n'], u['args']['m']) for u in sk if max(u['args']['n'], u['args']['m']) <= 12}
+    us = gen.kernel_units(set(t) | small) + inductive_units(tier) + table_units(t, split_from=split_from, extra=extra) + sk
     return us
